@@ -295,6 +295,10 @@ func (s *c11state) alphabet(nv int, rich bool) []c11op {
 				if cp >= 1 {
 					ops = append(ops, c11op{Kind: "slice", V: v, W: w, I: 1, J: 0, Bad: true})
 				}
+				if !sv.isNil {
+					// computed negative bounds are out of range (never "counted from the end")
+					ops = append(ops, c11op{Kind: "slice", V: v, W: w, I: 0, J: -1, Bad: true}, c11op{Kind: "slice", V: v, W: w, I: 0, J: -2, Bad: true}, c11op{Kind: "slice", V: v, W: w, I: -1, J: sv.ln, Bad: true})
+				}
 			}
 			// append
 			nOK := func(n int) bool {
